@@ -29,13 +29,23 @@ def nchunks(tier):
     return 16 if tier == "quick" else 96
 
 
+_GROUPED = [0]
+
+
 def _decl(letter, rev, default, envbound):
+    # in every second declaration the other toggle and the option live in named groups: a bundle such as -tu then
+    # spans toggles of two groups
+    _GROUPED[0] += 1
+    g = _GROUPED[0] % 2 == 0
+    kw = {"groups": [(b"first-group", b""), (b"second-group", b"about")]} if g else {}
+    uu = optgen.T(b"uu", b"u", group=1 if g else None)
+    opt = optgen.O(b"opt", b"p", group=0 if g else None)
     if letter == "digit":
         return optgen.D([optgen.T(b"tog", b"4", rev=rev, default=default, env=ENVN if envbound else None),
-                         optgen.T(b"uu", b"u"), optgen.O(b"opt", b"p")], pos=None)
+                         uu, opt], pos=None, **kw)
     return optgen.D([optgen.T(b"tog", b"t" if letter else None, rev=rev, default=default,
                               env=ENVN if envbound else None),
-                     optgen.T(b"uu", b"u"), optgen.O(b"opt", b"p")], pos=None)
+                     uu, opt], pos=None, **kw)
 
 
 def _alphabet(letter):
